@@ -264,6 +264,105 @@ class Ctx:
             raise Infra("binding guard: a corrupted expectation was accepted by the replayer (%s)" % trace_file)
         self.extra["binding_guard"] = self.extra.get("binding_guard", 0) + 1
 
+    # ---------------------------------------------------------------- code -> spec (recorded traces)
+    def record(self, fam, n, seed=None, tags=("verif",), env=None, name=None, extra_args=()):
+        """Drive the real code with seeded random histories; returns the flat ndjson event file."""
+        binp = self.build("record", tuple(tags))
+        out = os.path.join(self.scratch, "rec-%s-%s.ndjson" % (_safe(name or fam), _safe("-".join(tags))))
+        seed = self.seed if seed is None else seed
+        p = subprocess.run([binp, "-fam", fam, "-seed", str(seed), "-n", str(n), "-out", out] + list(extra_args), env=goenv(env),
+                           stdout=subprocess.PIPE, stderr=subprocess.STDOUT, text=True, timeout=1800)
+        if p.returncode != 0:
+            # the recorder only calls public API with valid arguments: a crash here is real-code behaviour
+            self.fails.append({"idx": -1, "fam": "recorded:" + fam, "step": -1, "kind": "crash", "got": _crash_head(p.stdout), "exp": "",
+                               "cfg": "record", "trace": {"fam": "recorded:" + fam, "seed": seed, "n": n, "steps": []},
+                               "cfgspec": {"label": "record", "tags": list(tags), "env": env or {}}})
+            return None
+        return out
+
+    def validate(self, module, event_file, fam, shards=4, timeout=1800, constants=None, guard=True, label="default"):
+        """Validate recorded events against spec/trace/<module>.tla (POSTCONDITION TraceAccepted)."""
+        if event_file is None:
+            return
+        hists = {}
+        order = []
+        for line in _lines(event_file):
+            ev = json.loads(line)
+            if ev["t"] not in hists:
+                hists[ev["t"]] = []
+                order.append(ev["t"])
+            hists[ev["t"]].append(line if line.endswith("\n") else line + "\n")
+        if not order:
+            raise Infra("no recorded events in %s" % event_file)
+        shards = max(1, min(shards, len(order)))
+        jobs = []
+        for i in range(shards):
+            ts = order[i::shards]
+            fpath = os.path.join(self.scratch, "val-%s-%s-%d.ndjson" % (module, _safe(label), i))
+            with open(fpath, "w") as f:
+                for t in ts:
+                    f.writelines(hists[t])
+            jobs.append((i, ts, fpath))
+        if guard:
+            # binding guard: one corrupted logged output must be rejected
+            gp = os.path.join(self.scratch, "val-%s-guard.ndjson" % module)
+            done = False
+            with open(gp, "w") as f:
+                for t in order:
+                    for line in hists[t]:
+                        ev = json.loads(line)
+                        if not done:
+                            for k in ("out", "exp", "got"):
+                                v = ev.get(k)
+                                if isinstance(v, str) and len(v) >= 2 and re.fullmatch(r"[0-9a-f]+", v):
+                                    ev[k] = v[:-1] + ("0" if v[-1] != "0" else "1")
+                                    done = True
+                                    break
+                        f.write(json.dumps(ev) + "\n")
+                    if done:
+                        break
+            if not done:
+                raise Infra("trace-validation guard: no logged output to corrupt in %s" % event_file)
+            jobs.append((-1, [], gp))
+
+        def one(job):
+            i, ts, fpath = job
+            c = dict(constants or {})
+            c["TraceFile"] = tla_str(fpath)
+            st = self.tlc(module, c, spec="TraceSpec", postcondition="TraceAccepted", workers=1, timeout=timeout,
+                          name="%s_%s_%s" % (module, _safe(label), "guard" if i < 0 else str(i)), allow_fail=True)
+            return job, st
+        with concurrent.futures.ThreadPoolExecutor(max_workers=min(len(jobs), NCPU)) as ex:
+            results = list(ex.map(one, jobs))
+        for (i, ts, fpath), st in results:
+            nev = count_lines(fpath)
+            rejected = "TraceAccepted" in st["out_tail"] and "is false" in st["out_tail"] or "violated" in st["out_tail"]
+            if i < 0:
+                self.tlc_runs.remove(st)
+                if st["ok"] or not rejected:
+                    raise Infra("trace-validation guard: a corrupted recorded output was accepted by %s\n%s" % (module, _strip(st["out_tail"])[-1500:]))
+                self.extra["trace_guard"] = self.extra.get("trace_guard", 0) + 1
+                continue
+            if st["ok"]:
+                self.validated += len(ts)
+                self.extra["events_validated"] = self.extra.get("events_validated", 0) + nev
+                continue
+            if not rejected:
+                raise Infra("trace validation of %s did not run to a verdict:\n%s" % (module, _strip(st["out_tail"])[-3000:]))
+            # rejected: the first unconsumed event is number depth (1-based) => the history it belongs to fails
+            bad = max(0, st["depth"] - 1)
+            ev = json.loads(nth_line(fpath, min(bad, nev - 1)))
+            t = ev["t"]
+            events = [json.loads(x) for x in hists[t]]
+            pos = [k for k, e in enumerate(events) if e == ev]
+            self.validated += max(0, ts.index(t))
+            self.fails.append({"idx": t, "fam": "recorded:" + fam, "step": pos[0] if pos else -1, "kind": "trace-rejected",
+                               "got": json.dumps(_shorten(ev)), "exp": "an event the specification %s allows after the preceding ones" % module,
+                               "cfg": label, "trace": {"fam": "recorded:" + fam, "module": module, "steps": events},
+                               "cfgspec": {"label": label, "recorded": True, "module": module}})
+        if len(self.samples) < 6:
+            self.samples.append({"recorded_history": [_shorten(json.loads(x)) for x in hists[order[0]][:8]]})
+
     # ---------------------------------------------------------------- evidence / verdict
     def sample_traces(self, trace_file, k=3):
         n = 0
